@@ -195,6 +195,11 @@ pub fn main(a: &Args) {
                 s.observe();
                 let finished = s.crash_during_add(scope, W[2], 1, k);
                 s.observe();
+                // life goes on after the crash: whatever the interrupted save left behind must not be in the way
+                s.add(scope, W[3], 1);
+                s.observe();
+                s.restart();
+                s.observe();
                 for e in s.evs.drain(..) { out.emit(&e); }
                 let _ = std::fs::remove_dir_all(&s.dir);
                 if finished || k >= max_k { break; }
